@@ -55,6 +55,12 @@ func (gen *generator) irConstant(t types.Type, old ast.Constant) (constant.Const
 		if !ok {
 			return nil, errors.Errorf("unable to locate global identifier %q", ident.Ident())
 		}
+		// The type written in front of a global variable is the type of the
+		// global variable (the type of a function also depends on the program
+		// address space of the data layout, which is not interpreted).
+		if g, ok := c.(*ir.Global); ok && t != nil && !t.Equal(g.Type()) {
+			return nil, errors.Errorf("type mismatch of global identifier %q; defined with type %q but expected %q", ident.Ident(), g.Type(), t)
+		}
 		return c, nil
 	case ast.ConstantExpr:
 		return gen.irConstantExpr(t, old)
